@@ -36,6 +36,34 @@ def generate(g, tier):
         exp = ea + (['STRING mid'] if (0, 'STRING mid') in lines else []) + eb
         cases.append(dict(op='compile', src=dict(text='\n'.join(g.units() * 0 + '    ' * d + t for d, t in lines)),
                           meta=dict(family='truth-table', exp=['ok', exp, [], {}])))
+    # a chain is not disturbed by what stands between its arms: an imported file (START / STARTENV / STARTCODE) with chains of its
+    # own (taken or not), a loop, a call, a bare block-less keyword — for every truth assignment
+    for _ in range(count(tier, 150, 1500)):
+        n = r.randint(2, 4)
+        truth = [r.choice([True, False]) for _ in range(n)]
+        has_else = g.chance(0.6)
+        lib_taken = r.choice([True, False])
+        kw = r.choice(['START', 'STARTENV', 'STARTCODE'])
+        lib = f'IF {"TRUE" if lib_taken else "FALSE"}\n    STRING lib-if\nELIF TRUE\n    STRING lib-elif\nSTRING lib-end'
+        lib_out = [] if kw == 'STARTENV' else ['STRING lib-if' if lib_taken else 'STRING lib-elif', 'STRING lib-end']
+        between_kind = r.choice(['import', 'import', 'loop', 'func'])
+        where = r.randint(0, n - 1)       # after which arm
+        lines, exp, taken = [], [], False
+        pre = ['FUNC sub', '    IF TRUE', '        STRING sub-if', '    ELSE', '        STRING sub-else'] if between_kind == 'func' else []
+        for i, t in enumerate(truth):
+            lines += [('IF ' if i == 0 else 'ELIF ') + ('TRUE' if t else 'FALSE'), f'    STRING a{i}']
+            if t and not taken: exp.append(f'STRING a{i}')
+            taken = taken or t
+            if i == where and (i < n - 1 or has_else):
+                if between_kind == 'import': lines.append(f'{kw} lib'); exp += lib_out
+                elif between_kind == 'loop': lines += ['REPEAT 2', '    IF TRUE', '        STRING in-loop']; exp += ['STRING in-loop'] * 2
+                else: lines.append('RUN sub'); exp.append('STRING sub-if')
+        if has_else:
+            lines += ['ELSE', '    STRING a-else']
+            if not taken: exp.append('STRING a-else')
+        lines.append('STRING end'); exp.append('STRING end')
+        cases.append(dict(op='compile_file', file='proj/main.txt', files={'proj/main.txt': '\n'.join(pre + lines), 'proj/lib.txt': lib},
+                          meta=dict(family='between-' + between_kind, exp=['ok', exp, [], {}])))
     return cases
 
 
